@@ -88,8 +88,9 @@ def required_args(name):
         "EnsembleForecaster": {"forecasters": members()}, "MultiplexForecaster": {"forecasters": members(), "selected_forecaster": "a"},
         "OnlineEnsembleForecaster": {"forecasters": members()}, "StackingForecaster": {"forecasters": members(), "final_regressor": LinearRegression()},
         "TransformedTargetForecaster": {"steps": [("t", Detrender(P())), ("f", N())]},
-        "ForecastingGridSearchCV": {"forecaster": N(), "cv": cv(), "param_grid": {"strategy": ["last", "mean"]}},
-        "ForecastingRandomizedSearchCV": {"forecaster": N(), "cv": cv(), "param_distributions": {"strategy": ["last", "mean"]}, "n_iter": 2, "random_state": 0},
+        # the grids exclude the wrapped forecaster's own configuration, so a winner written back into it is visible
+        "ForecastingGridSearchCV": {"forecaster": N(), "cv": cv(), "param_grid": {"strategy": ["drift", "mean"]}},
+        "ForecastingRandomizedSearchCV": {"forecaster": N(), "cv": cv(), "param_distributions": {"strategy": ["drift", "mean"]}, "n_iter": 2, "random_state": 0},
         "TabularToSeriesAdaptor": {"transformer": StandardScaler()}, "OptionalPassthrough": {"transformer": LogTransformer()},
         "SeriesToPrimitivesRowTransformer": {"transformer": MeanTransformer()}, "SeriesToSeriesRowTransformer": {"transformer": LogTransformer()},
         "TSInterpolator": {"length": 7}, "FittedParamExtractor": {"forecaster": N(), "param_names": ["window_length"]},
@@ -123,6 +124,30 @@ FAST = {"TimeSeriesForestClassifier": {"n_estimators": 3}, "TimeSeriesForestRegr
         "HampelFilter": {"window_length": 5}, "ThetaForecaster": {"sp": 1}, "AutoETS": {"auto": False}, "MUSE": {"window_inc": 4}}
 
 
+OPTION_POOL = {"strategy": ["mean", "drift", "update"], "aggfunc": ["median", "min"], "model": ["multiplicative"], "method": ["mean", "linear", "nearest", "drift"],
+               "trend": ["add"], "with_intercept": [False], "deseasonalize": [False], "return_nan": [False], "fill_value": [0.0], "refit": [False], "sp": [4], "window_length": [4],
+               "return_numpy": [False], "numerosity_reduction": [False], "norm": [True], "igb": [True], "anova": [True], "bigrams": [True], "save_words": [True],
+               "remember_data": [False], "passthrough": [True], "acf_lag": [5], "min_interval": [4], "n_intervals": [3, "log", "sqrt"]}
+
+
+def variants(name):
+    cls = discover()[name]
+    try:
+        sig = inspect.signature(cls.__init__)
+    except (TypeError, ValueError):
+        return []
+    out = []
+    for pn, prm in sig.parameters.items():
+        if pn == "self" or prm.kind in (prm.VAR_KEYWORD, prm.VAR_POSITIONAL):
+            continue
+        if isinstance(prm.default, bool):
+            out.append((pn, not prm.default))
+        for v in OPTION_POOL.get(pn, []):
+            if not isinstance(prm.default, bool) and v != prm.default and (pn, v) not in out:
+                out.append((pn, v))
+    return out
+
+
 def cases(tier, seed):
     names = list(discover())
     nassign = 3 if tier == "quick" else 20
@@ -131,6 +156,9 @@ def cases(tier, seed):
             yield {"kind": "params", "cls": n, "assignment": a}
     for n in names:
         yield {"kind": "state", "cls": n, "dseed": seed}
+        # the same protocol under non-default configurations: every boolean flag flipped, every known option value
+        for k, v in variants(n):
+            yield {"kind": "state", "cls": n, "dseed": seed, "variant": [k, v]}
     rng = np.random.default_rng([seed, 4])
     for i in range(60 if tier == "quick" else 600):
         spec = None
@@ -182,6 +210,11 @@ def _gen_value(name, default, a, pos):
         return float(default) * (0.5 + 0.25 * ((a + pos) % 3)) if default == default and default not in (0.0,) else default
     if isinstance(default, (list, tuple)):
         return type(default)(default)
+    if isinstance(default, str) and a != 2:
+        # another option where one is known, otherwise an arbitrary other string: a constructor stores, fit validates
+        # (constructors that do validate reject it and are retried with the default, see _construct)
+        alt = [v for v in OPTION_POOL.get(name, []) if isinstance(v, str) and v != default]
+        return alt[(a + pos) % len(alt)] if alt and a % 2 else default + "_other"
     return default
 
 
@@ -297,6 +330,11 @@ def _state(case, ctx):
         ctx.tag("state-skipped:" + name)
         return
     kw = dict(req, **FAST.get(name, {}))
+    if case.get("variant"):
+        kw[case["variant"][0]] = case["variant"][1]
+        name_v = "%s(%s=%r)" % (name, case["variant"][0], case["variant"][1])
+    else:
+        name_v = name
     try:
         est = cls(**kw)
     except Exception as e:  # noqa
@@ -340,7 +378,8 @@ def _state(case, ctx):
         ctx.tag("not-fittable:" + name)
         ctx.nontrivial = True
         return
-    before = {k: v for k, v in est.get_params(deep=False).items()}
+    from vmon.contracts import _params_snapshot, params_changed
+    before = _params_snapshot(est)
     try:
         out = fit(est)
     except Exception as e:  # noqa
@@ -348,14 +387,16 @@ def _state(case, ctx):
         env = env_signature(e)
         if env:
             ctx.env_skip(env)
-        ctx.tag("fit-failed:%s:%s" % (name, type(e).__name__))
+        ctx.tag("fit-failed:%s:%s" % (name_v, type(e).__name__))
         return
     ctx.check("fit.returns-self", out is est, "fit:returns-not-self:" + name, "fit did not return the estimator itself")
     ctx.check("fit.sets-is_fitted", bool(getattr(est, "is_fitted", False)), "fit:is_fitted-not-set:" + name, "is_fitted false after fit")
-    after = est.get_params(deep=False)
-    changed = [k for k in before if k not in after or not (before[k] is after[k] or _same(before[k], after[k]))]
+    after = _params_snapshot(est)
+    changed = params_changed(before, after) if before and after else []
+    changed = [k for k in changed if not (k in before["shallow"] and k in after["shallow"] and _same(before["shallow"][k], after["shallow"][k]) and
+                                          before["deep"].get(k) == after["deep"].get(k))]
     ctx.check("fit.params-unchanged", not changed, "fit:changes-constructor-parameter:%s:%s" % (name, ",".join(changed)), "fit changed constructor parameter(s) %s" % changed,
-              before={k: repr(before[k])[:60] for k in changed}, after={k: repr(after.get(k))[:60] for k in changed})
+              configuration=name_v, before={k: repr(before["deep"].get(k))[:80] for k in changed}, after={k: repr(after["deep"].get(k))[:80] for k in changed})
     ok, c = ctx.call("clone-of-fitted:exception:" + name, clone, est)
     if ok:
         ctx.check("clone-of-fitted", not getattr(c, "is_fitted", False), "state:%s:clone-of-fitted-reports-fitted" % name, "a clone of a fitted estimator reports is_fitted")
